@@ -24,6 +24,35 @@ impl std::fmt::Write for Sink64 {
     }
 }
 
+/// fully symbolic builder, constructed field by field: codes[i] in 0..=12 is the content of square i
+/// (piece + 6*colour, 12 = empty)
+pub(crate) fn any_builder_codes(symbolic_squares: u64) -> (BoardBuilder, [u8; 64]) {
+    let mut codes: [u8; 64] = kani::any();
+    let mut pieces: [Option<(Piece, Color)>; 64] = [None; 64];
+    let mut i = 0;
+    while i < 64 {
+        if symbolic_squares & (1u64 << i) == 0 {
+            codes[i] = 12;
+        }
+        kani::assume(codes[i] <= 12);
+        if codes[i] < 12 {
+            pieces[i] = Some((piece_of((codes[i] % 6) as usize), color_of((codes[i] / 6) as usize)));
+        }
+        i += 1;
+    }
+    let (rw, rb): (u8, u8) = (kani::any(), kani::any());
+    kani::assume(rw < 4 && rb < 4);
+    let f: u8 = kani::any();
+    kani::assume(f < 8);
+    let bb = BoardBuilder {
+        pieces,
+        side_to_move: any_color(),
+        castle_rights: [rights_of(rw), rights_of(rb)],
+        en_passant: if kani::any() { Some(File::from_index(f as usize)) } else { None },
+    };
+    (bb, codes)
+}
+
 fn rights_of(k: u8) -> CastleRights {
     CastleRights::from_index(k as usize)
 }
@@ -113,7 +142,7 @@ fn c06_render_ep_side() {
     render_and_compare(&bb, stm, 0, 0, if has_ep { Some(f) } else { None });
 }
 
-// @ob id=O6.1r props=C06 tier=quick kind=proof gen=range:16 unwind=66 weight=light fn="Display for BoardBuilder,CastleRights::to_string" desc="castling field: instance i fixes white rights = i mod 4 and black rights = i div 4 (all 16 combinations across the family), side to move symbolic: the field is the subset of KQkq in that order, or '-' when neither side has rights; the other fields as in O6.1"
+// @ob id=O6.1r props=C06 tier=quick kind=proof gen=range:16 qsel=6 unwind=66 weight=light fn="Display for BoardBuilder,CastleRights::to_string" desc="castling field: instance i fixes white rights = i mod 4 and black rights = i div 4 (all 16 combinations across the family), side to move symbolic: the field is the subset of KQkq in that order, or '-' when neither side has rights; the other fields as in O6.1"
 fn c06_render_rights(_c: usize, i: u8) {
     let mut bb = BoardBuilder::new();
     let stm = any_color();
